@@ -35,7 +35,10 @@ class Untranslatable(Exception):
         f = file or self.file or "?"
         ln = getattr(self.node, "lineno", "?")
         try:
-            snippet = ast.unparse(self.node) if isinstance(self.node, ast.AST) else str(self.node)
+            if isinstance(self.node, ast.FunctionDef):
+                snippet = f"def {self.node.name}(...)"
+            else:
+                snippet = ast.unparse(self.node) if isinstance(self.node, ast.AST) else str(self.node)
         except Exception:
             snippet = "<unprintable>"
         snippet = " ".join(snippet.split())
@@ -83,12 +86,17 @@ class FnSpec:
     segment_outputs: list = field(default_factory=list)  # [(local, type)] the value of a segment: these locals at its end
     segment_stmt: str | None = None    # a ONE-statement segment: the statement (anywhere in the body, also inside `with`
                                        # blocks) whose source starts with this text, found exactly once
+    segment_expr: str | None = None    # an EXPRESSION segment: the expression with exactly this source (every occurrence in
+                                       # the function is the same expression; at least one); its value is the result
+    segment_contains: str | None = None  # the segment's first statement must also contain this text
+    segment_deep: bool = False         # look for the segment statement inside for / while / if bodies too
     segment_last: str | None = None    # with segment_stmt: the segment runs from that statement to the one (in the same
                                        # statement list) whose source starts with this text, inclusive
     segment_inputs: list = field(default_factory=list)   # [(local, type)] locals the segment reads: parameters of the result
     skip_params: list = field(default_factory=list)  # Python parameters that are not passed (replaced by stmt shapes)
     extra_params: list = field(default_factory=list)  # [(coq name, type)] extra parameters introduced by shapes
     field_consts: dict = field(default_factory=dict)  # attr -> (Coq text, type): a field fixed by the class (see requires)
+    deques: dict = field(default_factory=dict)  # field attr -> attr of its maxlen: self.<attr> is a deque(maxlen=self.<maxlen>)
     static: bool = False               # a @staticmethod: no `self` parameter
     mutated_params: list = field(default_factory=list)  # list parameters the function updates in place: returned last
     theorem: str = ""                  # the equivalence theorem (in the client's equivalence file) about this function
@@ -297,6 +305,10 @@ class FnTranslator:
             return " -> ".join(par(self.coq_type(x)) for x in t[1] + [t[2]])
         if isinstance(t, tuple) and t[0] == "opaque":
             return t[1]
+        if isinstance(t, tuple) and t[0] == "tuple":
+            return " * ".join(par(self.coq_type(x)) for x in t[1])
+        if isinstance(t, tuple) and t[0] == "option":
+            return f"option {par(self.coq_type(t[1]))}"
         raise Untranslatable(self.fdef, f"no Coq type for {t!r}", self.file)
 
     def ann_type(self, ann, name, node):
@@ -621,6 +633,17 @@ class FnTranslator:
             return f
         return self.short_circuit([part(o) for o in e.values], env, k, e, isinstance(e.op, ast.And))
 
+    def e_ListComp(self, e, env, k):
+        g = e.generators[0] if len(e.generators) == 1 else None
+        if (g is None or g.ifs or g.is_async or not isinstance(g.target, ast.Name) or not isinstance(g.iter, ast.Name)
+                or not (isinstance(e.elt, ast.Subscript) and isinstance(e.elt.value, ast.Name)
+                        and isinstance(e.elt.slice, ast.Name) and e.elt.slice.id == g.target.id)):
+            self.bad(e, "list comprehension other than [<list>[i] for i in <list of ints>]")
+        ln, sn = e.elt.value.id, g.iter.id
+        if ln not in env or sn not in env or not is_list(env[ln][1]) or env[sn][1] != ("list", "Z"):
+            self.bad(e, "list comprehension other than [<list>[i] for i in <list of ints>]")
+        return self.hoist(e, f"zgets {env[ln][0]} {env[sn][0]}", env[ln][1], k)
+
     def e_List(self, e, env, k):
         if e.elts:
             self.bad(e, "non-empty list display")
@@ -768,7 +791,7 @@ class FnTranslator:
         sig = self.table.get(name)
         if sig is None:
             self.bad(e, f"call of the unknown helper `{name}` (not a registered method of this client)")
-        if sig["writes"]:
+        if sig["writes"] and not getattr(self, "_stmt_call", False):
             self.bad(e, f"call of `{name}`, which writes fields (not supported in expression position)")
         nargs = len(e.args)
         pars = sig["params"]
@@ -800,14 +823,28 @@ class FnTranslator:
             head = sig["coq"]
             if self.cur_section != sig["section"] and sig["prefix"]:
                 head = f"{head} {sig['prefix']}"
+            if sig["writes"]:
+                return k(f"{head} " + " ".join(args), ("call-with-writes", sig))
             if sig["returns"] is None:
                 self.bad(e, f"`{name}` returns nothing but is used as a value")
             return self.hoist(e, f"{head} " + " ".join(args), sig["returns"], k)
         return self.exprs(list(e.args), env, call)
 
     # ---- statements ------------------------------------------------------------------------
+    def may_assign(self, stmts) -> list:
+        out = self._may_assign_syntactic(stmts)
+        for st in stmts:
+            for n in ast.walk(st):
+                if (isinstance(n, ast.Expr) and isinstance(n.value, ast.Call) and isinstance(n.value.func, ast.Attribute)
+                        and isinstance(n.value.func.value, ast.Name) and n.value.func.value.id == "self"
+                        and n.value.func.attr in self.table):
+                    for w in self.table[n.value.func.attr]["writes"]:
+                        if "self." + w not in out:
+                            out.append("self." + w)
+        return out
+
     @staticmethod
-    def may_assign(stmts) -> list:
+    def _may_assign_syntactic(stmts) -> list:
         """names (locals `x`, fields `self.x`) that the statements may assign, in order of first occurrence"""
         out = []
 
@@ -836,6 +873,10 @@ class FnTranslator:
                 elif (isinstance(s, ast.Expr) and isinstance(s.value, ast.Call) and isinstance(s.value.func, ast.Attribute)
                       and s.value.func.attr == "append" and isinstance(s.value.func.value, ast.Name)):
                     add(s.value.func.value.id)
+                elif (isinstance(s, ast.Expr) and isinstance(s.value, ast.Call) and isinstance(s.value.func, ast.Attribute)
+                      and s.value.func.attr == "append" and isinstance(s.value.func.value, ast.Attribute)
+                      and isinstance(s.value.func.value.value, ast.Name) and s.value.func.value.value.id == "self"):
+                    add("self." + s.value.func.value.attr)
                 elif isinstance(s, ast.If):
                     walk(s.body)
                     walk(s.orelse)
@@ -966,7 +1007,7 @@ class FnTranslator:
     def _store(self, lname, ic, it, vc, vt, node, rest, env, ctx):
         if lname in env and (env[lname][1], it, vt) in self.unit.item_set:
             # <tensordict>[<key>] = <tensor> : in-place update of an object, needs an exclusively owned reference
-            if lname not in self.owned(env):
+            if lname not in self.owned(env) and not lname.startswith("self."):
                 self.bad(node, f"item assignment on `{lname}`, which may be shared with another reference "
                                f"(only a local bound to a fresh <e>.clone() is updated in place)")
             fn = self.unit.item_set[(env[lname][1], it, vt)]
@@ -1085,6 +1126,43 @@ class FnTranslator:
         if isinstance(s.value, ast.Constant) and isinstance(s.value.value, str):
             return self.block(rest, env, ctx)      # docstring
         c = s.value
+        if (isinstance(c, ast.Call) and isinstance(c.func, ast.Attribute) and isinstance(c.func.value, ast.Name)
+                and c.func.value.id == "self" and c.func.attr in self.table and self.table[c.func.attr]["writes"]
+                and self.table[c.func.attr]["returns"] is None and not c.keywords):
+            # self.m(args) for its effect: m is a registered method that writes fields (all of them fields of the caller,
+            # declared written here too); its results are the new field values
+            sig = self.table[c.func.attr]
+
+            def bound(code, t):
+                env2 = env
+                names = []
+                for w in sig["writes"]:
+                    env2, cn = self.bind_var("self." + w, env2, dict(sig["fields"])[w], s)
+                    names.append(cn)
+                return let_(tuple_pat(names), Term(code, False), self.block(rest, env2, ctx))
+            self._stmt_call = True
+            try:
+                return self.method_call(c.func.attr, c, env, bound)
+            finally:
+                self._stmt_call = False
+        if (isinstance(c, ast.Call) and isinstance(c.func, ast.Attribute) and c.func.attr == "append"
+                and isinstance(c.func.value, ast.Attribute) and isinstance(c.func.value.value, ast.Name)
+                and c.func.value.value.id == "self" and c.func.value.attr in self.spec.deques
+                and len(c.args) == 1 and not c.keywords):
+            # self.<deque>.append(e) on a deque(maxlen=self.<n>): the oldest entries beyond maxlen are dropped
+            key = "self." + c.func.value.attr
+            nkey = "self." + self.spec.deques[c.func.value.attr]
+            if key not in env or nkey not in env or env[nkey][1] != "Z" or not is_list(env[key][1]):
+                self.bad(s, "deque append on undeclared fields")
+
+            def dq(vc, vt):
+                if vt != env[key][1][1]:
+                    self.bad(s, f"append of a {vt} to a deque of {env[key][1][1]}")
+                env2, cn = self.bind_var(key, env, env[key][1], s)
+                if isinstance(c.args[0], ast.Name):
+                    env2 = self.set_owned(env2, c.args[0].id, False)
+                return let_(cn, Term(f"zdq_append {env[nkey][0]} {env[key][0]} {par(vc)}", True), self.block(rest, env2, ctx))
+            return self.expr(c.args[0], env, dq)
         if (isinstance(c, ast.Call) and isinstance(c.func, ast.Attribute) and c.func.attr == "append"
                 and isinstance(c.func.value, ast.Name) and len(c.args) == 1 and not c.keywords):
             lname = c.func.value.id
@@ -1491,7 +1569,15 @@ class FnTranslator:
 
         def ret(c, t, e2):
             comps = []
-            if spec.returns is not None:
+            if isinstance(spec.returns, tuple) and spec.returns[0] == "option":
+                # Optional[X]: a bare `return` / falling off the end is None, `return e` is Some e
+                if c is None:
+                    comps.append("None")
+                elif t != spec.returns[1]:
+                    self.bad(fdef, f"returns a value of type {t}, the client declares Optional[{spec.returns[1]}]")
+                else:
+                    comps.append(f"Some {par(c)}")
+            elif spec.returns is not None:
                 if c is None:
                     self.bad(fdef, "a path returns nothing although the client declares a returned value")
                 if t != spec.returns:
@@ -1504,10 +1590,22 @@ class FnTranslator:
             return Term(tuple_val(comps), True)
 
         body = list(fdef.body)
+        if spec.segment_expr is not None:
+            want = " ".join(spec.segment_expr.split())
+            occ = [n for n in ast.walk(fdef) if isinstance(n, ast.expr) and " ".join(ast.unparse(n).split()) == want]
+            if not occ:
+                self.bad(fdef, f"expression `{want}` not found in the function")
+            asg = ast.Assign(targets=[ast.Name(id="seg_value", ctx=ast.Store())], value=occ[0])
+            ast.copy_location(asg, occ[0])
+            ast.fix_missing_locations(asg)
+            body = [asg]
+            self.segment_span = (min(n.lineno for n in occ), max(n.end_lineno for n in occ))
         if spec.segment_stmt is not None:
             found = []
 
-            starts = lambda st, txt: " ".join(ast.unparse(st).split()).startswith(txt)
+            starts = lambda st, txt: " ".join(ast.unparse(st).split()).startswith(txt) and (
+                txt != spec.segment_stmt or spec.segment_contains is None
+                or spec.segment_contains in " ".join(ast.unparse(st).split()))
 
             def search(stmts):
                 for j, st in enumerate(stmts):
@@ -1520,6 +1618,11 @@ class FnTranslator:
                                 found.append(list(stmts[j:ends[0] + 1]))
                     elif isinstance(st, ast.With):
                         search(st.body)
+                    elif isinstance(st, (ast.For, ast.While)) and spec.segment_deep:
+                        search(st.body)
+                    elif isinstance(st, ast.If) and spec.segment_deep:
+                        search(st.body)
+                        search(st.orelse)
             search(body)
             if len(found) != 1:
                 self.bad(fdef, f"segment `{spec.segment_stmt}...` found {len(found)} times, expected once")
@@ -1892,9 +1995,28 @@ if not self.initialized:
     self.done_key = done_key
 """]
 
+def is_super_add(s):
+    return (isinstance(s, ast.Expr) and isinstance(s.value, ast.Call) and ast.unparse(s.value.func) == "super().add"
+            and len(s.value.args) == 1 and not s.value.keywords)
+
+
+def super_add(tr, s, rest, env, ctx):
+    """super().add(x): ReplayBuffer.add on the parent's part of the object (abstract state `_parent`, abstract operation
+    parent_add; the C09 tie is about that method itself)"""
+    def done(c, t):
+        if t != TR_T:
+            tr.bad(s, f"super().add of a value of type {t}")
+        env2, cn = tr.bind_var("self._parent", env, ("opaque", "Store"), s)
+        return let_(cn, Term(f"parent_add {env['self._parent'][0]} {par(c)}", True), tr.block(rest, env2, ctx))
+    return tr.expr(s.value.args[0], env, done)
+
+
 CLIENTS["C10"] = Client(
     pid="C10",
-    imports="From Coq Require Import List ZArith Bool.\nImport ListNotations.\nFrom AgileV Require Import TR.PyLib.",
+    imports=("From Coq Require Import List ZArith Bool.\nImport ListNotations.\nFrom AgileV Require Import TR.PyLib.\n"
+             "(* deque(maxlen=n).append(x): the last n entries of l ++ [x] *)\n"
+             "Definition zdq_append {A : Type} (n : Z) (l : list A) (x : A) : list A :=\n"
+             "  let l' := l ++ [x] in skipn (length l' - Z.to_nat n) l'."),
     equiv="coq/gen/C10_equiv.v",
     units=[Unit(
         file="agilerl/components/replay_buffer.py", section="GenNStep",
@@ -1905,9 +2027,11 @@ CLIENTS["C10"] = Client(
                  "Variable tany : Ten -> bool.                   (* t.bool().any() *)\n"
                  "Variable tadd : Ten -> Ten -> Ten.             (* t + u (elementwise) *)\n"
                  "Variable tscale : Ten -> Sc -> Ten.            (* t * python float *)\n"
-                 "Variable gpow : Z -> Sc.                       (* self.gamma ** k *)"),
+                 "Variable gpow : Z -> Sc.                       (* self.gamma ** k *)\n"
+                 "Context {Store : Type}.\n"
+                 "Variable parent_add : Store -> Tr -> Store.    (* super().add(td): ReplayBuffer.add on the parent part *)"),
         carrier=Carrier(T="Ten", ops={"add": "tadd"}),
-        variables=["k_reward", "k_done", "k_ns", "tget", "tset", "tany", "tadd", "tscale", "gpow"],
+        variables=["k_reward", "k_done", "k_ns", "tget", "tset", "tany", "tadd", "tscale", "gpow", "parent_add"],
         object_types=["T", TR_T],
         item_get={(TR_T, KEY_T): ("tget", "T")}, item_set={(TR_T, KEY_T, "T"): "tset"},
         functions=[FnSpec(
@@ -1917,7 +2041,17 @@ CLIENTS["C10"] = Client(
             returns=TR_T,
             expr_matchers=[(is_clone, clone_id), (is_bool_any, bool_any), (is_times_gamma_pow, times_gamma_pow)],
             stmt_shapes=[(stmt_like(t), skip_stmt) for t in C10_INFO_SKIPPED],
-            theorem="C10_translated_n_step_info_is_model")])])
+            theorem="C10_translated_n_step_info_is_model"),
+            FnSpec(
+            cls="MultiStepReplayBuffer", name="add", coq="MultiStepReplayBuffer_add",
+            fields=[("n_step", "Z"), ("n_step_buffer", ("list", TR_T)), ("_parent", ("opaque", "Store"))],
+            writes=["n_step_buffer", "_parent"], deques={"n_step_buffer": "n_step"},
+            field_consts={"reward_key": ("k_reward", KEY_T), "done_key": ("k_done", KEY_T), "ns_key": ("k_ns", KEY_T)},
+            returns=("option", TR_T), params={"data": TR_T},
+            stmt_shapes=[(stmt_like("data = data.to(self.device)"), skip_stmt), (is_super_add, super_add)],
+            theorem="C10_translated_add_is_model")],
+        requires=[("MultiStepReplayBuffer", "__init__", "self.n_step_buffer: Deque[TensorDict] = deque(maxlen=n_step)"),
+                  ("MultiStepReplayBuffer", "__init__", "self.n_step = n_step")])])
 
 
 # ---- C15: maybe_add_batch_dim ------------------------------------------------------------------------
@@ -2438,6 +2572,352 @@ CLIENTS["C18"] = Client(
             expr_matchers=[(is_clamp_kw, clamp_kw), (round_long("floor"), round_long_by("t_floor_long")),
                            (round_long("ceil"), round_long_by("t_ceil_long"))],
             theorem="C18_translated_projection_indices_is_model")])])
+
+
+# ---- C05: TournamentSelection._tournament / select ----------------------------------------------------
+AG_T = ("opaque", "Ag")
+ZGETS = ("(* [l[i] for i in idx] *)\n"
+         "Fixpoint zgets {A : Type} (l : list A) (idx : list Z) : res (list A) :=\n"
+         "  match idx with\n  | [] => Ok []\n"
+         "  | i :: r => bind (zget l i) (fun x => bind (zgets l r) (fun xs => Ok (x :: xs)))\n  end.")
+
+
+def is_randint_draw(e, env):
+    return isinstance(e, ast.Call) and ast.unparse(e.func) == "np.random.randint"
+
+
+def randint_draw(tr, e, env, k):
+    """np.random.randint(0, len(X), size=self.tournament_size): the drawn indices are the parameter tour_draw"""
+    want = "np.random.randint(0, len(fitness_values), size=self.tournament_size)"
+    if " ".join(ast.unparse(e).split()) != want:
+        tr.bad(e, f"a random draw other than `{want}`")
+    if tr.in_loop or tr.__dict__.setdefault("randint_node", id(e)) != id(e):
+        tr.bad(e, "more than one draw / a draw inside a loop")
+    return k("tour_draw", ("list", "Z"))
+
+
+def is_np_argmax(e, env):
+    return isinstance(e, ast.Call) and ast.unparse(e.func) == "np.argmax" and len(e.args) == 1 and not e.keywords
+
+
+def np_argmax(tr, e, env, k):
+    return tr.expr(e.args[0], env, lambda c, t: k(f"argmax_op {par(c)}", "Z") if t == ("list", "T")
+                   else tr.bad(e, f"np.argmax of a value of type {t}"))
+
+
+def is_clone_kw(e, env):
+    return (isinstance(e, ast.Call) and isinstance(e.func, ast.Attribute) and e.func.attr == "clone"
+            and len(e.keywords) == 1 and e.keywords[0].arg == "wrap" and ast.unparse(e.keywords[0].value) == "False"
+            and len(e.args) <= 1)
+
+
+def clone_kw(tr, e, env, k):
+    def done(vals):
+        if vals[0][1] != AG_T or (len(vals) == 2 and vals[1][1] != "Z"):
+            tr.bad(e, f"clone on values of types {[t for _, t in vals]}")
+        if len(vals) == 1:
+            return k(f"clone_same {par(vals[0][0])}", AG_T)
+        return k(f"clone_as {par(vals[0][0])} {par(vals[1][0])}", AG_T)
+    return tr.exprs([e.func.value] + list(e.args), env, done)
+
+
+def is_tournament_call(e, env):
+    return (isinstance(e, ast.Call) and ast.unparse(e.func) == "self._tournament" and len(e.args) == 1 and not e.keywords)
+
+
+def tournament_call(tr, e, env, k):
+    """self._tournament(rank) inside the selection loop: iteration i uses the draws loop_draws[i]"""
+    if len(tr.loop_index) != 1:
+        tr.bad(e, "a tournament outside the (single) selection loop")
+    if tr.__dict__.setdefault("tour_node", id(e)) != id(e):
+        tr.bad(e, "more than one tournament per iteration")
+    sig = tr.table.get("_tournament")
+    if sig is None:
+        tr.bad(e, "_tournament was not translated")
+
+    def done(c, t):
+        if t != ("list", "T"):
+            tr.bad(e, f"tournament over a value of type {t}")
+        d = tr.tmp()
+        return let_(d, Term(f"zget loop_draws {tr.loop_index[-1]}", False),
+                    tr.hoist(e, f"{sig['coq']} {env['self.tournament_size'][0]} {par(c)} {d}", "Z", k))
+    return tr.expr(e.args[0], env, done)
+
+
+def is_elitism_unpack(s):
+    return (isinstance(s, ast.Assign) and len(s.targets) == 1 and isinstance(s.targets[0], ast.Tuple)
+            and len(s.targets[0].elts) == 3 and all(isinstance(x, ast.Name) for x in s.targets[0].elts)
+            and isinstance(s.value, ast.Call) and ast.unparse(s.value.func) == "self._elitism"
+            and len(s.value.args) == 1 and isinstance(s.value.args[0], ast.Name))
+
+
+def elitism_unpack(tr, s, rest, env, ctx):
+    """elite, rank, max_id = self._elitism(population): _elitism (means, argsort ranks, max index, clone of the best) is an
+    abstract operation here; C05's own correspondence check covers it"""
+    pn = s.value.args[0].id
+    if pn not in env or env[pn][1] != ("list", AG_T):
+        tr.bad(s, "_elitism of something that is not the population")
+    env2 = env
+    names = []
+    for x, t in zip(s.targets[0].elts, [AG_T, ("list", "T"), "Z"]):
+        env2, cn = tr.bind_var(x.id, env2, t, s)
+        names.append(cn)
+    return let_("'(" + ", ".join(names) + ")", Term(f"elitism_op {env[pn][0]}", True), tr.block(rest, env2, ctx))
+
+
+CLIENTS["C05"] = Client(
+    pid="C05",
+    imports=("From Coq Require Import List ZArith Bool.\nImport ListNotations.\nFrom AgileV Require Import TR.PyLib.\n"
+             + ZGETS),
+    equiv="coq/gen/C05_equiv.v",
+    units=[Unit(
+        file="agilerl/hpo/tournament.py", section="GenTournament",
+        context=("Context {Ten Ag : Type}.\n"
+                 "Variable argmax_op : list Ten -> Z.                    (* np.argmax(values) *)\n"
+                 "Variable elitism_op : list Ag -> Ag * list Ten * Z.     (* self._elitism(population) *)\n"
+                 "Variable clone_same : Ag -> Ag.                         (* a.clone(wrap=False) *)\n"
+                 "Variable clone_as : Ag -> Z -> Ag.                      (* a.clone(index, wrap=False) *)"),
+        carrier=Carrier(T="Ten"), variables=["argmax_op", "elitism_op", "clone_same", "clone_as"],
+        functions=[
+            FnSpec(cls="TournamentSelection", name="_tournament", coq="TournamentSelection_tournament",
+                   fields=[("tournament_size", "Z")], returns="Z", params={"fitness_values": ("list", "T")},
+                   extra_params=[("tour_draw", ("list", "Z"))],
+                   expr_matchers=[(is_randint_draw, randint_draw), (is_np_argmax, np_argmax)],
+                   theorem="C05_translated_tournament_is_model"),
+            FnSpec(cls="TournamentSelection", name="select", coq="TournamentSelection_select",
+                   fields=[("tournament_size", "Z"), ("elitism", "bool"), ("population_size", "Z")],
+                   returns=("tuple", [AG_T, ("list", AG_T)]),
+                   params={"population": ("list", AG_T), "new_population": ("list", AG_T)},
+                   extra_params=[("loop_draws", ("list", ("list", "Z")))],
+                   expr_matchers=[(is_clone_kw, clone_kw), (is_tournament_call, tournament_call)],
+                   stmt_shapes=[(is_elitism_unpack, elitism_unpack)],
+                   theorem="C05_translated_select_is_model"),
+        ])])
+
+
+# ---- C11: the PrioritizedReplayBuffer methods (over abstract tree objects) ----------------------------
+STREE_T, MTREE_T, PAR_T, TD_T = ("opaque", "STree"), ("opaque", "MTree"), ("opaque", "Par"), ("opaque", "Td")
+
+
+def pow_of(attr_src, coq):
+    def m(e, env):
+        return isinstance(e, ast.BinOp) and isinstance(e.op, ast.Pow) and ast.unparse(e.right) == attr_src
+    def h(tr, e, env, k):
+        return tr.expr(e.left, env, lambda c, t: k(f"{coq} {par(c)}", "T") if t == "T"
+                       else tr.bad(e, f"power of a value of type {t}"))
+    return m, h
+
+
+def is_item(e, env):
+    return (isinstance(e, ast.Call) and not e.args and not e.keywords and isinstance(e.func, ast.Attribute)
+            and e.func.attr == "item")
+
+
+def item_id(tr, e, env, k):
+    if ast.unparse(e) == "torch.rand(1).item()":
+        # one uniform draw per iteration of the (single) loop: the parameter us, indexed by the loop variable
+        if len(tr.loop_index) != 1 or tr.__dict__.setdefault("rand_node", id(e)) != id(e):
+            tr.bad(e, "a uniform draw outside the single sampling loop / a second draw per iteration")
+        return tr.hoist(e, f"zget us {tr.loop_index[-1]}", "T", k)
+    return tr.expr(e.func.value, env, lambda c, t: k(c, t) if t in ("T", "Z")
+                   else tr.bad(e, f".item() of a value of type {t}"))
+
+
+def tree_method(attr, meth, nargs):
+    def m(e, env):
+        return (isinstance(e, ast.Call) and not e.keywords and len(e.args) == nargs and isinstance(e.func, ast.Attribute)
+                and e.func.attr == meth and ast.unparse(e.func.value) == "self." + attr)
+    return m
+
+
+def sum_total(tr, e, env, k):
+    return k(f"sum_total {env['self.sum_tree'][0]}", "T")
+
+
+def sum_retrieve(tr, e, env, k):
+    return tr.expr(e.args[0], env, lambda c, t: tr.hoist(e, f"sum_retrieve {env['self.sum_tree'][0]} {par(c)}", "Z", k)
+                   if t == "T" else tr.bad(e, f"retrieve of a value of type {t}"))
+
+
+def is_int_zeros(e, env):
+    return (isinstance(e, ast.Call) and ast.unparse(e.func) == "torch.zeros" and len(e.args) == 1
+            and [kw.arg for kw in e.keywords] == ["dtype"] and ast.unparse(e.keywords[0].value) == "torch.int64")
+
+
+def int_zeros(tr, e, env, k):
+    return tr.expr(e.args[0], env, lambda c, t: k(f"zzeros {par(c)}", ("list", "Z")) if t == "Z"
+                   else tr.bad(e, f"torch.zeros of a size of type {t}"))
+
+
+def is_td_rows(e, env):
+    return (isinstance(e, ast.Subscript) and isinstance(e.slice, ast.Constant) and e.slice.value == 0
+            and isinstance(e.value, ast.Attribute) and e.value.attr == "shape" and isinstance(e.value.value, ast.Name)
+            and e.value.value.id in env and env[e.value.value.id][1] == TD_T)
+
+
+def td_rows(tr, e, env, k):
+    return k(f"td_rows {env[e.value.value.id][0]}", "Z")
+
+
+def per_super_add(tr, s, rest, env, ctx):
+    def done(c, t):
+        if t != TD_T:
+            tr.bad(s, f"super().add of a value of type {t}")
+        env2, cn = tr.bind_var("self._parent", env, PAR_T, s)
+        return let_(cn, Term(f"parent_add {env['self._parent'][0]} {par(c)}", True), tr.block(rest, env2, ctx))
+    return tr.expr(s.value.args[0], env, done)
+
+
+_pb = pow_of("-beta", "powb")
+
+
+def is_float_zeros(e, env):
+    return (isinstance(e, ast.Call) and ast.unparse(e.func) == "torch.zeros" and len(e.args) == 1
+            and [kw.arg for kw in e.keywords] == ["device"])
+
+
+def float_zeros(tr, e, env, k):
+    return tr.expr(e.args[0], env, lambda c, t: k(f"tzeros (c_zero C) {par(c)}", ("list", "T")) if t == "Z"
+                   else tr.bad(e, f"torch.zeros of a size of type {t}"))
+
+
+def is_sum_getitem(e, env):
+    return (isinstance(e, ast.Subscript) and ast.unparse(e.value) == "self.sum_tree" and not isinstance(e.slice, ast.Slice))
+
+
+def sum_getitem(tr, e, env, k):
+    return tr.expr(e.slice, env, lambda c, t: tr.hoist(e, f"sum_get {env['self.sum_tree'][0]} {par(c)}", "T", k)
+                   if t == "Z" else tr.bad(e, f"tree index of type {t}"))
+
+
+def min_min(tr, e, env, k):
+    return tr.hoist(e, f"min_min {env['self.min_tree'][0]}", "T", k)
+
+
+PER_FIELDS = [("max_size", "Z"), ("sum_tree", STREE_T), ("min_tree", MTREE_T), ("max_priority", "T")]
+PER_WRITES = ["sum_tree", "min_tree", "max_priority"]
+PER_VARS = ["powa", "powb", "sum_set", "min_set", "sum_total", "sum_retrieve", "sum_get", "min_min", "c_mul_z", "c_div_z",
+            "parent_add", "td_rows"]
+_pa = pow_of("self.alpha", "powa")
+
+CLIENTS["C11"].imports += ("\n(* torch.zeros(n, dtype=torch.int64) as a list *)\n"
+                           "Definition zzeros (n : Z) : list Z := repeat 0%Z (Z.to_nat n).\n"
+                           "Definition tzeros {A : Type} (z : A) (n : Z) : list A := repeat z (Z.to_nat n).")
+CLIENTS["C11"].units.append(Unit(
+    file="agilerl/components/replay_buffer.py", section="GenPer",
+    context=("Variable C : carrier.\nContext {STree MTree Par Td : Type}.\n"
+             "Variable powa : C -> C.                            (* x ** self.alpha *)\n"
+             "Variable powb : C -> C.                            (* x ** -beta *)\n"
+             "Variable sum_get : STree -> Z -> res C.             (* self.sum_tree[idx]: asserts 0 <= idx < capacity *)\n"
+             "Variable min_min : MTree -> res C.                  (* self.min_tree.min() *)\n"
+             "Variable sum_set : Z -> STree -> C -> STree.        (* self.sum_tree[idx] = x *)\n"
+             "Variable min_set : Z -> MTree -> C -> MTree.        (* self.min_tree[idx] = x *)\n"
+             "Variable sum_total : STree -> C.                    (* self.sum_tree.sum() *)\n"
+             "Variable sum_retrieve : STree -> C -> res Z.        (* self.sum_tree.retrieve(x): asserts 0 <= x <= sum + 1e-5 *)\n"
+             "Variables (c_mul_z c_div_z : C -> Z -> C).          (* python float (op) python int *)\n"
+             "Variable parent_add : Par -> Td -> Par.             (* super().add(data): ReplayBuffer.add *)\n"
+             "Variable td_rows : Td -> Z.                         (* data.shape[0] *)"),
+    carrier=C11_CARRIER, variables=PER_VARS,
+    mixed_ops={("T", "mul", "Z"): ("c_mul_z", "T"), ("T", "div", "Z"): ("c_div_z", "T")},
+    item_set={(STREE_T, "Z", "T"): "sum_set", (MTREE_T, "Z", "T"): "min_set"},
+    functions=[
+        FnSpec(cls="PrioritizedReplayBuffer", name="_update_priority", coq="PER_update_priority",
+               fields=PER_FIELDS, writes=PER_WRITES, expr_matchers=[_pa],
+               theorem="C11_translated_update_priority_is_model"),
+        FnSpec(cls="PrioritizedReplayBuffer", name="add", coq="PER_add",
+               fields=PER_FIELDS + [("tree_ptr", "Z"), ("_parent", PAR_T)], writes=PER_WRITES + ["tree_ptr", "_parent"],
+               params={"data": TD_T}, expr_matchers=[(is_td_rows, td_rows)],
+               stmt_shapes=[(is_super_add, per_super_add)], theorem="C11_translated_per_add_is_model"),
+        FnSpec(cls="PrioritizedReplayBuffer", name="update_priorities", coq="PER_update_priorities",
+               fields=PER_FIELDS, writes=PER_WRITES,
+               params={"indices": ("list", "Z"), "priorities": ("list", "T")},
+               expr_matchers=[(is_item, item_id)], theorem="C11_translated_update_priorities_is_model"),
+        FnSpec(cls="PrioritizedReplayBuffer", name="_sample_proportional", coq="PER_sample_proportional",
+               fields=[("sum_tree", STREE_T)], returns=("list", "Z"), extra_params=[("us", ("list", "T"))],
+               expr_matchers=[(is_int_zeros, int_zeros), (tree_method("sum_tree", "sum", 0), sum_total),
+                              (tree_method("sum_tree", "retrieve", 1), sum_retrieve), (is_item, item_id)],
+               theorem="C11_translated_sample_proportional_is_model"),
+        FnSpec(cls="PrioritizedReplayBuffer", name="_calculate_weights", coq="PER_calculate_weights",
+               fields=[("sum_tree", STREE_T), ("min_tree", MTREE_T), ("size", "Z")], returns=("list", "T"),
+               params={"indices": ("list", "Z")}, skip_params=["beta"],
+               expr_matchers=[_pb, (is_float_zeros, float_zeros), (tree_method("sum_tree", "sum", 0), sum_total),
+                              (tree_method("min_tree", "min", 0), min_min), (is_sum_getitem, sum_getitem)],
+               theorem="C11_translated_calculate_weights_is_model"),
+    ]))
+
+
+# ---- C20: the step-count arithmetic in the headers of the training loops (expression segments) -------
+def c20_expr(section, file, fn, coq, expr, inputs, thm, shapes=None, extra=None):
+    return Unit(file=file, section=section, context="", carrier=Carrier(T="unit"),
+                functions=[FnSpec(cls=None, name=fn, coq=coq, segment_expr=expr, segment_inputs=inputs,
+                                  segment_outputs=[("seg_value", "Z")], skip_params="*",
+                                  expr_shapes=shapes or {}, extra_params=extra or [], theorem=thm)])
+
+
+LS = {"agent.learn_step": ("const", "v_learn_step", "Z")}
+CLIENTS["C20"] = Client(
+    pid="C20",
+    imports="From Coq Require Import List ZArith Bool.\nImport ListNotations.\nFrom AgileV Require Import TR.PyLib.",
+    equiv="coq/gen/C20_equiv.v",
+    units=[
+        c20_expr("GenOffRollout", "agilerl/training/train_off_policy.py", "train_off_policy", "off_policy_rollout_steps",
+                 "evo_steps // num_envs", [("evo_steps", "Z"), ("num_envs", "Z")], "C20_translated_off_rollout_steps_is_model"),
+        c20_expr("GenOffLearnStep", "agilerl/training/train_off_policy.py", "train_off_policy", "off_policy_learn_every",
+                 "agent.learn_step // num_envs", [("num_envs", "Z")], "C20_translated_off_learn_every_is_model",
+                 shapes=LS, extra=[("v_learn_step", "Z")]),
+        c20_expr("GenOnOuter", "agilerl/training/train_on_policy.py", "train_on_policy", "on_policy_outer_iterations",
+                 "-(evo_steps // -agent.learn_step)", [("evo_steps", "Z")], "C20_translated_on_outer_is_model",
+                 shapes=LS, extra=[("v_learn_step", "Z")]),
+        c20_expr("GenOnInner", "agilerl/training/train_on_policy.py", "train_on_policy", "on_policy_inner_iterations",
+                 "-(agent.learn_step // -num_envs)", [("num_envs", "Z")], "C20_translated_on_inner_is_model",
+                 shapes=LS, extra=[("v_learn_step", "Z")]),
+    ])
+
+
+# ---- C12: the slice written by write_to_shared_memory (one-statement segment) ---------------------------
+def is_copyto(s):
+    return (isinstance(s, ast.Expr) and isinstance(s.value, ast.Call) and ast.unparse(s.value.func) == "np.copyto"
+            and len(s.value.args) == 2 and not s.value.keywords and isinstance(s.value.args[0], ast.Subscript)
+            and isinstance(s.value.args[0].slice, ast.Slice))
+
+
+def copyto(tr, s, rest, env, ctx):
+    """np.copyto(dest[a:b], src)  is  dest[a:b] = src  (same number of elements required)"""
+    store = ast.Assign(targets=[s.value.args[0]], value=s.value.args[1])
+    store.targets[0] = copy.deepcopy(store.targets[0])
+    store.targets[0].ctx = ast.Store()
+    ast.copy_location(store, s)
+    ast.fix_missing_locations(store)
+    return tr.s_Assign(store, rest, env, ctx)
+
+
+def is_flat_row(e, env):
+    return (isinstance(e, ast.Call) and not e.args and isinstance(e.func, ast.Attribute) and e.func.attr == "flatten"
+            and isinstance(e.func.value, ast.Call) and ast.unparse(e.func.value.func) == "np.asarray"
+            and len(e.func.value.args) == 1 and isinstance(e.func.value.args[0], ast.Name))
+
+
+def flat_row(tr, e, env, k):
+    """np.asarray(obs, dtype=dtype).flatten(): the observation as a flat row (a list here already)"""
+    n = e.func.value.args[0].id
+    if n not in env or not is_list(env[n][1]):
+        tr.bad(e, "flatten of something that is not a row")
+    return k(env[n][0], env[n][1])
+
+
+CLIENTS["C12"] = Client(
+    pid="C12",
+    imports="From Coq Require Import List ZArith Bool.\nImport ListNotations.\nFrom AgileV Require Import TR.PyLib.",
+    equiv="coq/gen/C12_equiv.v",
+    units=[Unit(
+        file="agilerl/vector/pz_async_vec_env.py", section="GenShm", context="Context {A : Type}.", carrier=Carrier(T="unit"),
+        functions=[FnSpec(
+            cls=None, name="write_to_shared_memory", coq="write_to_shared_memory_leaf",
+            segment_stmt="np.copyto(dest[", segment_contains="np.asarray(obs, dtype=dtype).flatten()", segment_deep=True,
+            segment_inputs=[("index", "Z"), ("size", "Z"), ("dest", ("list", ("opaque", "A"))), ("obs", ("list", ("opaque", "A")))],
+            segment_outputs=[("dest", ("list", ("opaque", "A")))], skip_params="*",
+            expr_matchers=[(is_flat_row, flat_row)], stmt_shapes=[(is_copyto, copyto)],
+            theorem="C12_translated_write_row_is_model")])])
 
 
 def translate_pid(pid: str, repo: Path):
